@@ -103,6 +103,9 @@ func (f *frame) enterLoop(li *loopInfo, b *ssa.BasicBlock, pc *Term, st State) (
 	st["$alloc"] = ntop
 	for _, phi := range phis {
 		v := f.freshVal(f.valName(phi), phi.Type(), st)
+		if !f.inlined {
+			c.addCand(v.T, phi.Type())
+		}
 		// keep statically known function identity out; loop-carried values are arbitrary
 		f.vals[phi] = v
 	}
@@ -238,6 +241,7 @@ func verifyFunc(prog *Program, specs *SpecSet, sp *FuncSpec) (res *FuncResult) {
 		}
 		v := Val{T: c.declConst("in."+smtIdent(name), c.sortOf(p.Type())), Typ: p.Type()}
 		c.addHyp(c.wellTypedIn(v.T, p.Type(), st))
+		c.addCand(v.T, p.Type())
 		args = append(args, v)
 	}
 	for i, fv := range fn.FreeVars {
@@ -275,6 +279,7 @@ func verifyFunc(prog *Program, specs *SpecSet, sp *FuncSpec) (res *FuncResult) {
 		post.vars[fv.Name()] = f.free[fv]
 	}
 	post.results = results
+	f.applyGhostSets(sp, post, out)
 	for i, e := range sp.Ensures {
 		g := f.safeEval(post, e)
 		if g == nil {
@@ -306,7 +311,7 @@ func verifyFunc(prog *Program, specs *SpecSet, sp *FuncSpec) (res *FuncResult) {
 			}
 		}
 		for _, h := range sortedKeys(out) {
-			if allowed[h] || h == "$alloc" || strings.HasPrefix(h, "$visited") || h == "$epoch" {
+			if allowed[h] || h == "$alloc" || strings.HasPrefix(h, "$visited") || h == "$epoch" || strings.HasPrefix(h, "ghost$") {
 				continue
 			}
 			before, ok := f.entry[h]
@@ -321,6 +326,32 @@ func verifyFunc(prog *Program, specs *SpecSet, sp *FuncSpec) (res *FuncResult) {
 		}
 	}
 	return
+}
+
+// applyGhostSets performs the function-level ghost updates ("ghost x = e"),
+// evaluated in the post-state, writing into st.
+func (f *frame) applyGhostSets(sp *FuncSpec, env *specEnv, st State) {
+	for _, gs := range sp.GhostSets {
+		func() {
+			defer func() {
+				if r := recover(); r != nil {
+					if se, ok := r.(specError); ok {
+						f.c.warn = append(f.c.warn, fmt.Sprintf("SPEC-ERROR %s:%d: %s", gs.C.File, gs.C.Line, se.msg))
+						f.c.specErrors++
+						return
+					}
+					panic(r)
+				}
+			}()
+			g, ok := f.c.specs.Ghosts[gs.Ghost]
+			if !ok {
+				env.fail("unknown ghost variable %s", gs.Ghost)
+			}
+			v := env.eval(gs.C.E)
+			v = env.fit(v, f.c.evalType(g.Type, env.pkg()))
+			st["ghost$"+gs.Ghost] = f.term(v)
+		}()
+	}
 }
 
 // frameGoal: heap h is unchanged on everything that existed before the call
